@@ -40,8 +40,15 @@ def streams(ctx):
     return [("triples", ctx.scale(200, 2500))]
 
 
+T_WIDE = T + ("optional", "list", "union")
+
+
 def rand_ir(r, name):
-    return irgen.rand_ir(r, nparams=r.randint(1, 4), type_kinds=T, default_kinds=D, all_defaults=True, with_return=False,
+    if r.random() < 0.5:
+        return irgen.rand_ir(r, nparams=r.randint(1, 4), type_kinds=T, default_kinds=D, all_defaults=True,
+                             with_return=False, name=name)
+    # wider: compound types and required parameters (signature-legal: defaults form a suffix)
+    return irgen.rand_ir(r, nparams=r.randint(1, 5), type_kinds=T_WIDE, default_kinds=D + ("absent",), with_return=False,
                          name=name)
 
 
@@ -197,13 +204,22 @@ def run_case(ctx, P, stream, idx):
                             names[k], files[k]), dict(w, target=k, after=now[k]))
                         continue
                     unchanged_file = now[k] == srcs[k]
-                    exp = deepcopy(gold)
-                    if k == "function":
-                        for p in exp["params"].values():
-                            p.setdefault("default", irgen.NONE_STR)
+                    # what a correct sync writes into a target of format k is the truth's interface *emitted in
+                    # format k*; comparing with that emission re-read by the matching parser cancels the per-format
+                    # normalisations and quirks (C02's business) and isolates what sync itself does
+                    if k == truth:
+                        exp = deepcopy(gold)
+                    else:
+                        try:
+                            exp = hops.hop(dict(deepcopy(gold), name=gold.get("name") or "Foo"),
+                                           {"class": "class", "function": "function", "argparse_function": "argparse"}[k],
+                                           {"function_type": "self" if method else "static"} if k == "function" else {})[1]
+                        except Exception:
+                            P.count("expectation.unavailable")
+                            continue
                     for dd in cmp_ir(exp, got, returns=False):
                         mech = None
-                        if k in ("function", "argparse_function") and st == "differs" and unchanged_file:
+                        if k in ("function", "argparse_function") and st in ("differs", "equal") and unchanged_file:
                             mech = "sync.function-target-never-rewritten"
                         key = "sync.target-differs-from-truth.%s.%s.%s|%s,t=%s,d=%s" % (
                             dd["where"], dd["field"], dd["how"], key_feats, dd["tkind"], dd["dkind"])
